@@ -50,7 +50,7 @@ func (c09Engine) Assumptions() []string {
 	}
 }
 func (c09Engine) Required(tier string) []string {
-	return []string{"hook_calls", "snapshots_compared", "compilations_repeated", "ops_on_used_vm", "crash_fired", "grid_crash_points", "budget_exceeded_on_fresh", "call_fault_fired", "processes_compared", "programs_with_map_constants", "held_programs_rechecked", "operator_overload_programs", "single_scenario_processes", "ops_fed_previous_result"}
+	return []string{"hook_calls", "snapshots_compared", "compilations_repeated", "ops_on_used_vm", "crash_fired", "grid_crash_points", "budget_exceeded_on_fresh", "call_fault_fired", "processes_compared", "programs_with_map_constants", "held_programs_rechecked", "operator_overload_programs", "single_scenario_processes", "ops_fed_previous_result", "shared_option_recompilations"}
 }
 func (c09Engine) Decode(raw []byte) (interface{}, error) {
 	var sc VMScenario
@@ -104,7 +104,13 @@ func progDigests(sc *VMScenario) []string {
 			out[i] = "rejected:" + Digest(co.ErrText())
 			continue
 		}
-		out[i] = Digest(Snapshot(pr))
+		// the program AND what it returns on the scenario's first environment
+		w := NewWorld(false, nil, nil)
+		envv := BuildEnv(w, sc.Envs[0]).AsRep(sc.Rep)
+		vm.MemoryBudget = defaultBudget
+		beginRun(-1, 0)
+		res := sutRun(nil, pr, envv)
+		out[i] = Digest(Snapshot(pr) + "|" + res.Key() + "|" + strings.Join(journalStrings(w.Journal), ";"))
 	}
 	return out
 }
@@ -173,6 +179,39 @@ func (c09Engine) Run(sci interface{}, ctx *RunCtx) *Finding {
 			}
 			if j != firstJ {
 				return &Finding{Class: "C09/compile-journal-differs", Detail: fmt.Sprintf("compilation %d called environment functions differently\nsource: %s\n first: %s\n now:   %s", rep, src, firstJ, j)}
+			}
+		}
+	}
+	// One Env option VALUE reused: what a strict compilation accepts must not
+	// depend on a lenient compilation (AllowUndefinedVariables) made with the same
+	// option value in between.
+	{
+		w0 := NewWorld(false, nil, nil)
+		sample := BuildEnv(w0, sc.Envs[0]).AsRep(sc.Rep)
+		envOpt := expr.Env(sample)
+		verdict := func(src string, lenient bool) string {
+			opts := []expr.Option{envOpt}
+			if lenient {
+				opts = append(opts, expr.AllowUndefinedVariables())
+			}
+			p, co := sutCompile(src, opts...)
+			ctx.Eval()
+			if co.Panicked {
+				return "panic: " + co.PanicVal
+			}
+			if co.Err != nil {
+				return "rejected: " + firstLine(co.ErrText())
+			}
+			return "accepted: " + Digest(Snapshot(p))
+		}
+		for _, src := range []string{"Undef1 == nil", "A + Undef2", "Undef3(1)", "A"} {
+			before := verdict(src, false)
+			verdict(src, true)
+			verdict("Undef1 == Undef2 or Undef3(A) == 1", true)
+			after := verdict(src, false)
+			ctx.Count("shared_option_recompilations", 1)
+			if before != after {
+				return &Finding{Class: "C09/compile-depends-on-earlier-compile", Detail: fmt.Sprintf("the same strict compilation with the same (shared) Env option value changed after a lenient compilation with that option value\nsource: %s\n before: %s\n after:  %s", src, before, after)}
 			}
 		}
 	}
